@@ -737,4 +737,82 @@ Proof.
   intros (i & j & a & b & Hij & Ha & Hb & Hc & Hs & Ht & Hn). apply Hn.
   apply (h_nr _ _ HIv i j a b Hij Ha Hb Hc Hs Ht).
 Qed.
+
+(** the search parameters are only touched by the UCI thread and the engine thread *)
+Definition params_tids (tr : list tev) : Prop :=
+  forall p t w k, nth_error tr p = Some (Acc t LParams w k) -> t = 0 \/ t = U.
+
+Lemma xevents_params : forall x xl x', xstep x xl = Some x' -> params_tids (xevents x xl).
+Proof.
+  intros x xl x' Hst p t w k A. destruct xl as [lb| | |].
+  - destruct (xstep_XL _ _ _ Hst) as (s' & Hl & _).
+    change (xevents x (XL lb)) with (label_events N parent true (base x) lb) in A.
+    destruct lb as [t0 a|e].
+    + destruct (act_eq_dec a ARdSearch) as [->|N1].
+      * assert (t0 = 0) by (eapply lstep_master_only; eauto). subst t0.
+        simpl in A. destruct (search (base x)); simpl in A; enum_nth A; auto.
+      * exfalso. destruct a; try congruence; simpl in A;
+          try (unfold push_events, notify_events in A; enum_nth A; fail);
+          try (destruct p; discriminate).
+        -- destruct t0; simpl in A; [enum_nth A|].
+           destruct (pc (th (base x) (S t0))); simpl in A; try (enum_nth A; fail).
+           destruct k0; simpl in A; try (enum_nth A; fail).
+           destruct (negb (qa (th (base x) (S t0)) =? 0)%Z && negb (job (th (base x) (S t0)) =? -1)%Z); simpl in A; enum_nth A.
+        -- destruct (hasres (th (base x) t0)); [destruct p; discriminate|].
+           destruct (parent t0); [unfold push_events in A; enum_nth A | destruct p; discriminate].
+    + destruct e; simpl in A; unfold notify_events in A.
+      * unfold go_waits in A. rewrite orb_true_r in A. simpl in A. enum_nth A. auto.
+      * enum_nth A.
+      * enum_nth A.
+      * enum_nth A.
+      * enum_nth A.
+  - simpl in A. unfold notify_events in A. enum_nth A.
+  - simpl in A. destruct (xpend x); enum_nth A.
+  - simpl in A. enum_nth A.
+Qed.
+
+Lemma xreach_params : forall x tr, xreach x tr -> params_tids tr.
+Proof.
+  induction 1 as [|x tr xl x' R IH Hst].
+  - intros p t w k A. destruct p; discriminate.
+  - intros p t w k A. destruct (app_case _ _ _ _ A) as [(L & Q)|(k' & -> & Q)].
+    + eapply IH; eauto.
+    + eapply (xevents_params x xl x' Hst); eauto.
+Qed.
+
+(** Summary: in every schedule from the initial state, two conflicting accesses to a modelled
+    location that are not ordered by happens-before can only be an access to the option values or
+    the table geometry / generation by a HELPER thread against one of another thread (the part
+    whose ordering goes through the START / STOP_ACK message edges and is left to the trace check) *)
+Definition opt_or_tt (l : loc) : bool := match l with LOpt | LTT => true | _ => false end.
+
+Theorem model_drf_partial : forall ls tr i j a b,
+  trace_of N parent true xinit ls = Some tr ->
+  i < j -> at_ tr i = Some a -> at_ tr j = Some b -> conflictb a b = true -> ~ hb tr i j ->
+  sel opt_or_tt a = true /\
+  ((ev_tid a <> 0 /\ ev_tid a <> U) \/ (ev_tid b <> 0 /\ ev_tid b <> U)).
+Proof.
+  intros ls tr i j a b H Hij Ha Hb Hc Hn.
+  pose proof (model_guarded_drf N parent true xinit ls tr H) as G.
+  pose proof (model_atomic_drf N parent true xinit ls tr H) as A.
+  pose proof (model_handoff_drf ls tr H) as HO.
+  assert (PT : params_tids tr).
+  { unfold trace_of in H. destruct (xrun N parent true xinit ls) as [[xf tr']|] eqn:E; [|discriminate].
+    injection H as <-. pose proof (xrun_xreach ls xinit [] xf tr' xr0 E) as R. simpl in R.
+    eapply xreach_params; eauto. }
+  destruct (conflictb_inv a b Hc) as (t1 & l & w1 & k1 & t2 & w2 & k2 & -> & -> & Hne & Hp).
+  assert (Hcases : guarded l = true \/ atomic_loc l = true \/ handoff_loc l = true) by (destruct l; simpl; auto).
+  destruct Hcases as [Hg|[Hat|Hh]].
+  - exfalso. apply G. exists i, j, (Acc t1 l w1 k1), (Acc t2 l w2 k2). repeat split; auto.
+  - exfalso. apply A. exists i, j, (Acc t1 l w1 k1), (Acc t2 l w2 k2). repeat split; auto.
+  - simpl.
+    destruct (Nat.eq_dec t1 0) as [E1|E1]; destruct (Nat.eq_dec t1 U) as [E1u|E1u];
+    destruct (Nat.eq_dec t2 0) as [E2|E2]; destruct (Nat.eq_dec t2 U) as [E2u|E2u];
+      try (subst; pose proof U_ne0; congruence);
+      try (exfalso; apply HO; exists i, j, (Acc t1 l w1 k1), (Acc t2 l w2 k2); simpl;
+           repeat split; auto; fail).
+    all: destruct l; simpl in Hh; try discriminate; simpl.
+    all: try (split; [reflexivity|]; auto; fail).
+    all: unfold at_ in *; try (destruct (PT i _ _ _ Ha); congruence); try (destruct (PT j _ _ _ Hb); congruence).
+Qed.
 End H.
